@@ -22,7 +22,10 @@ META = dict(
                "functions returning a Future / Task / object with __await__), a quarter of the send cases being 2-4 consecutive "
                "sends on ONE kicker object re-pointed with with_broker / with_labels or whose broker gets more middlewares in "
                "between (each send compared with kiq over the stack its broker has at that send), a fifth of the receive cases "
-               "giving the broker its backend / middlewares / formatter / tasks only after the Receiver was constructed, must produce a "
+               "giving the broker its backend / middlewares / formatter / tasks only after the Receiver was constructed, a fifth of all "
+               "cases putting the broker OBJECT (a minimal AsyncBroker subclass, or one overriding startup / shutdown around super()) "
+               "through its life cycle - startup / shutdown / startup before the first message, shutdown() while messages are being "
+               "executed / sent, between two sends on one kicker, middlewares with startup / shutdown hooks of their own -, must produce a "
                "global log that is an interleaving of the model's sequences (compared in Coq); a Python oracle re-checks the "
                "statement on the real log.",
     level_note="Hooks that raise abort kiq / callback (FCrash) - modelled and covered by the correspondence; the once/order "
